@@ -33,7 +33,7 @@ type c05 struct {
 func init() { Props["C05"] = &c05{} }
 
 func (c *c05) Rule() string {
-	return "grid of (input family x size, limit in {0,1,2,len-1,len,len+1,64,3072,2*len} plus 511..513, 1023..1025, 4095..4097, 65535..65537 where smaller than the input) pairs; per pair every fault offset 0..min(len,limit) (0..len when limit=0; sampled - head, tail, block boundaries and a seeded sample of the middle - when there are more than 700 in the quick tier, more than 8192 in the thorough tier) x {error alone, error together with data} x seeded delivery schedules (single read, byte-at-a-time, random chunks with zero-length reads, data+EOF, scribbling), through DetectReader (plain reader, readers that also offer io.WriterTo / io.Seeker / Len(), *bytes.Reader) and DetectFile (simulated files; real temp files/directories for the kernel-fidelity subset). A case is non-trivial when the injected fault actually fired or a non-default delivery schedule was executed; distinct = distinct (input, limit, entry point, fault offset, with-data, schedule class) tuples"
+	return "grid of (input family x size, limit in {0,1,2,len-1,len,len+1,64,3072,2*len} plus 511..513, 1023..1025, 4095..4097, 65535..65537 where smaller than the input) pairs; per pair every fault offset 0..min(len,limit) (0..len when limit=0; sampled - head, tail, block boundaries and a seeded sample of the middle - when there are more than 700 in the quick tier, more than 8192 in the thorough tier) x {error alone, error together with data} x seeded delivery schedules (single read, byte-at-a-time, random chunks with zero-length reads, data+EOF, scribbling), through DetectReader (plain reader; readers that also offer io.WriterTo / io.Seeker / Len() / io.ReaderAt+Size; a caller's *bufio.Reader; an *os.File opened by the caller, simulated and real; *bytes.Reader, *strings.Reader, *bytes.Buffer, *io.SectionReader) and DetectFile (simulated files; real temp files/directories for the kernel-fidelity subset). A case is non-trivial when the injected fault actually fired or a non-default delivery schedule was executed; distinct = distinct (input, limit, entry point, fault offset, with-data, schedule class) tuples"
 }
 
 func c05Inputs() []inputs.Input {
@@ -147,6 +147,15 @@ func (c *c05) build(seed uint64, tier string) {
 	}
 }
 
+// streamWraps are reader shapes built on the fault-injecting stream; stdWraps are
+// the standard library's own reader types (no fault can be injected into them).
+var (
+	streamWraps = []string{"wt", "seek", "len", "rat", "bufio", "osfile"}
+	stdWraps    = []string{"bytes", "strings", "buffer", "section", "osfile-real"}
+)
+
+var sizeDisclosing = map[string]bool{"osfile": true, "len": true, "rat": true, "seek": true}
+
 var chunkMenu = []int{0, 1, 1, 2, 3, 7, 64, 500, 4096}
 
 func c05Delivery(r *core.Rand, class int, k int, withData bool) *simio.Delivery {
@@ -250,7 +259,7 @@ func (c *c05) Plan(seed uint64, tier string, worker, workers, idx int) *Plan {
 				case e < 4:
 					op.Kind = "reader"
 				case e < 5:
-					op.Kind, op.Wrap = "reader", []string{"wt", "seek", "len"}[r.Intn(3)]
+					op.Kind, op.Wrap = "reader", streamWraps[r.Intn(len(streamWraps))]
 				default:
 					op.Kind = "file"
 				}
@@ -258,7 +267,9 @@ func (c *c05) Plan(seed uint64, tier string, worker, workers, idx int) *Plan {
 			}
 		}
 		if k < 0 {
-			ops = append(ops, Op{Kind: "reader", In: &in, Wrap: "bytes"})
+			for _, wr := range stdWraps {
+				ops = append(ops, Op{Kind: "reader", In: &in, Wrap: wr})
+			}
 			ops = append(ops, Op{Kind: "file", In: &in})
 			ops = append(ops, Op{Kind: "reader", In: &in})
 		}
@@ -379,22 +390,31 @@ func (c *c05) Check(rr *RunResult, st *Stats) []Failure {
 		consumed := -1
 		if res.Stream != nil {
 			consumed = res.Stream.Handed
-		} else if op.Wrap == "bytes" {
-			consumed = n - res.BytesLeft
+			if op.Wrap == "bufio" && res.ConsumedSet {
+				consumed = res.Consumed // what left the caller's bufio.Reader, not what it read ahead
+			}
+		} else if res.ConsumedSet {
+			consumed = res.Consumed
 		}
 		// The consumption bound is stated for DetectReader; how much DetectFile
 		// reads from a file it opened itself is not observable by the caller.
 		if op.Kind == "reader" && limit > 0 && consumed > int(limit) {
 			bad("over-read", "%d bytes were taken from the reader, the limit is %d", consumed, limit)
 		}
-		if op.Kind == "reader" && limit > 0 && res.Stream != nil && res.Stream.Pos() > int(limit) {
+		if op.Kind == "reader" && limit > 0 && res.Stream != nil && op.Wrap != "bufio" && res.Stream.Pos() > int(limit) {
 			bad("over-read", "the reader was left at offset %d, the limit is %d", res.Stream.Pos(), limit)
 		}
 		if op.Kind == "file" && reach && k == n {
 			reach = false // failing exactly where the content ends: not reached by a reader that learnt the size from Stat
 		}
+		either := false
 		if op.Kind == "file" && !reach && k >= 0 {
-			corner = true // a file failing beyond the header: the statement covers failures before the header is complete only
+			corner, either = true, true // a file failing beyond the header: the statement covers failures before the header is complete only
+		}
+		if sizeDisclosing[op.Wrap] && reach && k == n {
+			// a reader that discloses its size (Stat, Len, Size, Seek to the end) and fails exactly
+			// where its content ends: a consumer that sized its buffer from that never meets the failure
+			reach, either = false, true
 		}
 		if limit == 0 && k < 0 && consumed >= 0 && consumed != n {
 			bad("under-read", "limit 0 must consume everything: %d of %d bytes taken", consumed, n)
@@ -425,7 +445,7 @@ func (c *c05) Check(rr *RunResult, st *Stats) []Failure {
 			if d.FaultWithData && k > 0 {
 				st.Fault("read_error_with_data")
 			}
-		case corner && op.Kind == "reader":
+		case corner && op.Kind == "reader" && !either:
 			// The error rides on the Read call that completes the header: the header
 			// is complete, the reader did deliver those bytes, so the answer is
 			// Detect's (what io.ReadFull semantics give). Judged strictly for readers.
@@ -437,7 +457,7 @@ func (c *c05) Check(rr *RunResult, st *Stats) []Failure {
 				}
 				bad(cls, "the error was delivered together with the bytes that complete the header (all %d header bytes arrived): got %s err=%q; Detect on the same bytes reports %s", limit, res.R.Key(), res.ErrText, wantOK.Key())
 			}
-		case corner:
+		case corner || either:
 			st.Probe("silent_corner")
 			if !okAnswer && !errAnswer {
 				bad("mismatch", "error delivered together with the byte completing the header: got %s err=%q; want either Detect's answer %s or application/octet-stream with the error", res.R.Key(), res.ErrText, wantOK.Key())
